@@ -10,7 +10,44 @@ import time
 PY = "/venv/bin/python"
 
 
-def run_script(code, repo="/repo", env=None, timeout=120, args=()):
+def group_members(pgid):
+    out = []
+    for d in os.listdir("/proc"):
+        if not d.isdigit():
+            continue
+        try:
+            st = open(f"/proc/{d}/stat").read()
+            fields = st[st.rindex(")") + 2:].split()
+            if int(fields[2]) != pgid or fields[0] == "Z":
+                continue
+            cmd = open(f"/proc/{d}/cmdline").read().replace("\0", " ")
+            out.append((int(d), cmd))
+        except (OSError, ValueError):
+            continue
+    return out
+
+
+def end_tree_sparing_trackers(pgid, wait_s=20.0):
+    """The scenario's main process is gone: kill what is left of its tree EXCEPT resource trackers (the properties exclude
+    killing those), then give the trackers time to sweep and leave.  Returns (killed pids, seconds until the group was empty)."""
+    killed = []
+    t0 = time.time()
+    while time.time() - t0 < wait_s:
+        mem = group_members(pgid)
+        if not mem:
+            return killed, round(time.time() - t0, 2)
+        for pid, cmd in mem:
+            if "resource_tracker" not in cmd and pid not in killed:
+                try:
+                    os.kill(pid, signal.SIGKILL)
+                    killed.append(pid)
+                except ProcessLookupError:
+                    pass
+        time.sleep(0.05)
+    return killed, None
+
+
+def run_script(code, repo="/repo", env=None, timeout=120, args=(), spare_trackers=False):
     d = tempfile.mkdtemp(prefix="lokyv_")
     path = os.path.join(d, "scenario.py")
     with open(path, "w") as f:
@@ -32,6 +69,9 @@ def run_script(code, repo="/repo", env=None, timeout=120, args=()):
             rc = None
             timed_out = True
         finally:
+            spared = None
+            if spare_trackers and not timed_out:
+                spared = end_tree_sparing_trackers(p.pid)
             try:
                 os.killpg(p.pid, signal.SIGKILL)
             except ProcessLookupError:
@@ -41,7 +81,7 @@ def run_script(code, repo="/repo", env=None, timeout=120, args=()):
             except Exception:
                 pass
     res = {"rc": rc, "timed_out": timed_out, "wall_s": round(time.time() - t0, 2),
-           "stdout": open(out).read(), "stderr": open(err).read()[-4000:]}
+           "stdout": open(out).read(), "stderr": open(err).read()[-4000:], "spared": spared}
     import shutil
     shutil.rmtree(d, ignore_errors=True)
     return res
